@@ -5,6 +5,7 @@ import (
 	"encoding/json"
 	"fmt"
 	"io"
+	"os"
 	"os/exec"
 	"strings"
 )
@@ -44,6 +45,12 @@ func (dr *Driver) Ask(line J) string {
 
 func (dr *Driver) AskRaw(s string) string {
 	dr.n++
+	if p := os.Getenv("VERIF_DRIVER_LOG"); p != "" {
+		if f, err := os.OpenFile(p, os.O_APPEND|os.O_CREATE|os.O_WRONLY, 0o644); err == nil {
+			f.WriteString(s + "\n")
+			f.Close()
+		}
+	}
 	if _, err := io.WriteString(dr.in, s+"\n"); err != nil {
 		panic(fmt.Sprintf("driver write: %v", err))
 	}
